@@ -10,6 +10,13 @@ func init() {
 		Bounds:   "one connection, a six-step dialogue; schedules: the symbolic gate inputs (hold the session at start / mid-DATA or not) on top of run-to-block scheduling",
 		Assumes:  []string{"schedule exploration is limited to harness-placed gates; real sockets, timedExit and the web server are outside"},
 	}, Harness{
+		Prop: "C19", Pkg: "server/smtp", Func: "VerifC19DrainN",
+		Quick:    [][]int64{{2}},
+		Thorough: [][]int64{{2}, {3}},
+		Unwind:   40,
+		Desc:     "n SMTP connections accepted before shutdown, each session with its own start / mid-DATA gates: Drain returns only after all sessions have ended, every message in progress is stored and acknowledged",
+		Bounds:   "param n (2, thorough 3) connections; 2n symbolic gate inputs on top of run-to-block scheduling",
+	}, Harness{
 		Prop: "C19", Pkg: "server/pop3", Func: "VerifC19Drain",
 		Quick:    [][]int64{{}},
 		Thorough: [][]int64{{}},
